@@ -11,6 +11,7 @@ import PyImpSpec.Ident
 import PyImpSpec.Tikz
 import PyImpSpec.Registry
 import PyImpSpec.Columns
+import PyImpSpec.KKTau
 
 /-! Line-protocol driver: one request per line (`<model> <op> <args…>`), one canonical reply per line.
 Run with `lake env lean --run Driver/Main.lean`.  The harness sends the same inputs to the real
@@ -461,6 +462,7 @@ def step (st : DState) (line : String) : DState × String :=
   | ["sweeps", fs] => (st, sweepsReply fs)
   | ["sel", keys] => (st, selReply keys)
   | "tlm" :: which :: a :: b :: c :: d :: e :: binds => (st, tlmReply which [a, b, c, d, e] binds)
+  | ["tau", wmin, wmax, fext, n, k] => (st, s!"ok {(KKTau.tau KKTau.floatOps (parseFloat wmin) (parseFloat wmax) (parseFloat fext) n.toNat! k.toNat!).toBits}")
   | "kerc" :: name :: binds => (st, kercReply name binds)
   | "ker" :: which :: sym :: binds => (st, kerReply which sym binds)
   | "imp" :: n :: toks => (st, impReply n.toNat! toks)
